@@ -595,6 +595,84 @@ def o8_show_servers(chk, prog):
     chk.end(ob)
 
 
+@expectation('c18_show_lists')
+def c18_show_lists():
+    """Native: clients and server connections registered with given states; SHOW LISTS through the real handle_admin."""
+    def f(res):
+        for r in res:
+            if 'error' in r or 'panic' in r:
+                return False, 'native: %r' % (r,)
+            bad = {k: (r['lists'].get(k), v) for k, v in r.get('want', {}).items() if str(r['lists'].get(k)) != str(v)}
+            if bad:
+                return True, 'native: SHOW LISTS reports (got, required) %r' % (bad,)
+        return False, 'native: %r' % (res,)
+    return f
+
+
+def o9_show_lists(chk, prog):
+    """SHOW LISTS: free / used clients and servers are the numbers of registered clients / connections that are idle / active."""
+    from checks.c07 import mk_addr
+    ob = chk.begin('O9-show-lists', 'admin::handle_admin (real coroutine) on SHOW LISTS over registries of two clients and two server connections with SYMBOLIC states: free_clients / '
+                   'used_clients are the numbers of registered clients that are idle / active, free_servers / used_servers those of registered connections that are idle / active', {})
+    ha = prog.funcs.get('handle_admin')
+    if ha is None:
+        raise Inconclusive('cannot locate admin::handle_admin')
+    ip = chk.interp(prog, 'O9-show-lists')
+    base = list(ip.overrides)
+
+    def harness(ip_):
+        ip_.overrides[:] = base
+        cmap, smap = MapV('hashmap'), MapV('hashmap')
+        csts, ssts = [], []
+        for i in range(2):
+            st = ip_.fresh(64, 'cstate%d' % i)
+            ip_.assume(z3.ULE(st.v, 2))
+            csts.append(st)
+            cmap.entries.append([BV(32, i), Cell(Ptr(Cell(mk_client_stats(ip_, prog, i, 'db', 'u', st), 'cs')), 'v')])
+        names = prog.src.structs['ServerStats']
+        for i in range(2):
+            st = ip_.fresh(64, 'sstate%d' % i)
+            ip_.assume(z3.ULE(st.v, 3))
+            ssts.append(st)
+            vals = {n: Opaque(n, 'field') for n in names}
+            vals['state'] = Ptr(Cell(Opaque('AtomicServerState', 'sstate', st), 'sstate'))
+            smap.entries.append([BV(32, i), Cell(Ptr(Cell(Agg([vals[n] for n in names], 'ServerStats', list(names)), 'ss')), 'v')])
+
+        def cload(c, p, order):
+            v = deref(c.ip, p)
+            return EnumV(v.fields[0].fields[0], {}, 'ClientState')
+        ip_.overrides[:0] = [(re.compile(r'^(?:stats::|super::)?get_client_stats$'), lambda c: cmap),
+                             (re.compile(r'^(?:stats::|super::)?get_server_stats$'), lambda c: smap),
+                             (re.compile(r'^(?:pool::)?get_all_pools$'), lambda c: MapV('hashmap')),
+                             (re.compile(r'^(?:stats::\w+::)?AtomicClientState::load$'), cload),
+                             (re.compile(r'^(?:stats::\w+::)?AtomicServerState::load$'), lambda c, p, order: EnumV(p.data if isinstance(p, Opaque) else deref(c.ip, p).data, {}, 'ServerState'))]
+        q = b'SHOW LISTS'
+        body = [BV(8, x) for x in b'Q' + (len(q) + 5).to_bytes(4, 'big') + q + b'\0']
+        st_ = StreamV([], 'admin_client')
+        csm = Ptr(Cell(Agg([MapV('hashmap')], 'Lock'), 'csmap'))
+        try:
+            ip_.drive(ip_.call_function(ha, [Ptr(Cell(st_, 'stream')), Seq(body, 'bytesmut'), csm]))
+        except Panic as p:
+            raise Inconclusive('handle_admin panic: ' + p.msg)
+        ob.nontrivial += 1
+        if any(not b.concrete for b in st_.out):
+            raise Inconclusive('SHOW LISTS reply has symbolic bytes')
+        lists = {r_[0]: r_[1] for r_ in parse_rows(bytes(b.v for b in st_.out)) if len(r_) == 2}
+        cs = [next(k_ for k_ in (0, 1, 2) if decide(ip_, s_.v == k_)) for s_ in csts]
+        ss = [next(k_ for k_ in (0, 1, 2, 3) if decide(ip_, s_.v == k_)) for s_ in ssts]
+        want = {'free_clients': cs.count(0), 'used_clients': cs.count(2), 'free_servers': ss.count(3), 'used_servers': ss.count(1)}
+        bad = {k: (lists.get(k), v) for k, v in want.items() if lists.get(k) != str(v)}
+        if bad:
+            chk.report(ob, 'C18/O9/show-lists', 'SHOW LISTS with clients %r and server connections %r reports (got, required) %r' % (
+                [STATE_NAMES[x] for x in cs], [SSTATE_NAMES[x] for x in ss], bad), {},
+                {'commands': [{'op': 'show_lists', 'clients': [STATE_NAMES[x] for x in cs], 'servers': [SSTATE_NAMES[x] for x in ss], 'want': want}], 'expect': ['c18_show_lists']})
+        if len(ob.samples) < 3:
+            ob.samples.append({'clients': [STATE_NAMES[x] for x in cs], 'servers': [SSTATE_NAMES[x] for x in ss], 'lists': {k: lists.get(k) for k in want}})
+    ip.explore(harness, max_paths=4000)
+    chk.absorb(ob, ip)
+    chk.end(ob)
+
+
 def o1_rollup(chk, prog, cpools, spools):
     nclients, nservers = len(cpools), len(spools)
     name = 'O1-rollup-clients%s-servers%s' % (''.join(map(str, cpools)), ''.join(map(str, spools)))
@@ -700,7 +778,7 @@ def main(chk):
         '(O3) a CancelRequest connection -- the real Client::cancel, handle in cancel mode, the drop -- makes no statistics call on the entry of the process id it names. '
         '(O4) bb8\'s connect hook, ServerPool::connect from MIR with Server::startup succeeding or failing: the connection is registered once and handed to bb8 in state idle; '
         'a failed connect leaves nothing registered. (O5) SHOW CLIENTS as the admin console renders it (admin::handle_admin from MIR over a registry of two clients with symbolic states): one row per '
-        'registered client with its own id, pool, user, application, its state in words and its own totals in the columns named so. (O6) SHOW POOLS rows: the column named after a counter carries that counter (PoolStats::generate_header / generate_row from MIR). (O7) <Server as Drop>::drop from MIR with symbolic flags: the entry is removed exactly once whenever the connection object goes away. (O8) SHOW SERVERS as rendered (handle_admin from MIR, two connections with symbolic states): one row per registered connection, its state in words, its counters in the columns named so. NOT decided: the rendering of SHOW LISTS / STATS, consistency of the global registries under concurrent tasks, '
+        'registered client with its own id, pool, user, application, its state in words and its own totals in the columns named so. (O6) SHOW POOLS rows: the column named after a counter carries that counter (PoolStats::generate_header / generate_row from MIR). (O7) <Server as Drop>::drop from MIR with symbolic flags: the entry is removed exactly once whenever the connection object goes away. (O8) SHOW SERVERS as rendered (handle_admin from MIR, two connections with symbolic states): one row per registered connection, its state in words, its counters in the columns named so. (O9) SHOW LISTS: free / used clients and servers are the numbers of registered clients / connections that are idle / active. NOT decided: the rendering of SHOW STATS / DATABASES, consistency of the global registries under concurrent tasks, '
         'bytes/error totals, and that totals never decrease across pool reloads.')
     chk.assumptions += [
         'one session at a time; the registries themselves (RwLock<HashMap>) and their concurrent readers are not encoded',
@@ -731,6 +809,10 @@ def main(chk):
         o8_show_servers(chk, prog)
     except Inconclusive as e:
         chk.note_inconclusive('O8-show-servers: %s' % e)
+    try:
+        o9_show_lists(chk, prog)
+    except Inconclusive as e:
+        chk.note_inconclusive('O9-show-lists: %s' % e)
     try:
         o3_cancel_conn(chk, prog)
     except Inconclusive as e:
